@@ -25,6 +25,15 @@ partial def tyOfSexp : Sexp → Option Ty
   | .list (.atom "or" :: es) => (tysOfSexp es).map (fun l => Ty.or (TyList.ofList l))
   | .list (.atom "and" :: es) => (tysOfSexp es).map (fun l => Ty.and (TyList.ofList l))
   | .list (.atom "tuple" :: es) => (tysOfSexp es).map (fun l => Ty.tuple (TyList.ofList l))
+  | .list [.atom "iv", .atom k, .atom a, .atom b] =>
+    -- the four interval forms as the checker reads them (ty/constructors.rs `interval`): cc `a..b`, oc `a<..b` = a+1..b,
+    -- co `a..<b` = a..b-1, oo `a<..<b` = a+1..b-1
+    match a.toInt?, b.toInt? with
+    | some x, some y =>
+      let lo := if k = "oc" || k = "oo" then x + 1 else x
+      let hi := if k = "co" || k = "oo" then y - 1 else y
+      if k = "cc" || k = "oc" || k = "co" || k = "oo" then some (.refine T0.iInt (.and (.ge lo) (.le hi))) else none
+    | _, _ => none
   | .list [.atom "list", e, .atom n] =>
     match tyOfSexp e, n.toNat? with
     | some t, some k => some (.list t k)
